@@ -492,6 +492,10 @@ func TestVerifC38(t *testing.T) {
 
 	depth := vlib.Pick(r, 4, 6)
 
+	if _, replaying := r.Replaying(); replaying {
+		depth = 64 // only prefixes of the recorded history are expanded (WantPrefix); it may come from the thorough tier
+	}
+
 	r.Set("depth", depth)
 	r.Set("alphabet", env.evs)
 	r.Set("operation_limits", []int{10, 2})
